@@ -1002,3 +1002,42 @@ func TestRoundSizes(t *testing.T) {
 	}
 	P.SetExtra("round_size_tokens", n)
 }
+
+// TestReencodeLargeTokens: every re-encoding kind at every item of tokens that are LARGER than the small buffers decoders
+// keep inline (4 KiB, 8 KiB, 64 KiB: 5 000, 9 000 and 70 000 bytes sealed) - the fixed tokens of the exhaustive test are a
+// few hundred bytes, and a decoder may take another path (a spill buffer, a pool, a streamed comparison) above a size.
+func TestReencodeLargeTokens(t *testing.T) {
+	n := 0
+	for _, size := range []int{5000, 9000, 70000} {
+		d, _, ok := tok.PaddedDlg(size)
+		if !ok {
+			d, _, ok = tok.PaddedDlg(size + 1)
+		}
+		if !ok {
+			P.Class("large-token:not-constructible")
+			continue
+		}
+		tk, priv, err := tok.Build(d)
+		if err != nil {
+			continue
+		}
+		sealed, _, err := tk.ToSealed(priv)
+		if err != nil {
+			continue
+		}
+		root, _, err := cbor.Parse(sealed)
+		if err != nil {
+			continue
+		}
+		cnt := root.Count()
+		for _, kind := range cbor.Reencodings {
+			for i := 0; i < cnt; i++ {
+				if cbor.Applicable(root.Nth(i), kind) {
+					reencProp.One(t, ReencCase{Tok: d, Kind: kind, Item: i})
+					n++
+				}
+			}
+		}
+	}
+	P.SetExtra("large_token_reencodings", n)
+}
